@@ -4,6 +4,7 @@ from fractions import Fraction
 from lib import recdsl as rd
 from props.rec_common import *  # noqa: F401,F403
 from props import race_common as rc
+from props import rec2_cases as r2
 from props.c04 import static_gate  # noqa: F401  (atomic-region reduction of the racing-threads model)
 
 ID = "C09"
@@ -20,7 +21,10 @@ RULE = ("one case = a history of 2-6 runs on one real recorder (successful, rais
         "one of whose classes is registered with a sampling rate that is not a number (None / text / list, as an unconverted "
         "configuration value: the end of such a run fails while comparing the draw with the rate) followed by runs of other "
         "classes, of the same class and replays (implementation-side only: idle after every run, last run as on a fresh "
-        "recorder); "
+        "recorder); a stored recording changed under its id through the cassette API between two replays on one recorder (key "
+        "added / removed / replaced, missing-key policies, memory and file cassette; kind repatched, implementation only): the "
+        "second replay equals the same replay on a fresh recorder; histories of one interpreter whose inputs get "
+        "equal-but-differently-typed arguments, every replay also run in a fresh interpreter and compared; "
         "non-trivial = history of >= 2 runs; distinct = distinct history")
 ASSUMPTIONS = ["the thread-local interception flag is observed on the driver thread only",
                "threads: as for C04/C05 - the methods that touch the active recording are modelled access by access "
@@ -176,6 +180,8 @@ def has_raw_rate(case):
 
 
 def to_gallina(case, obs):     # noqa: F811
+    if r2.is_rec2(case):
+        return None          # (implementation only: a stored recording rewritten through the cassette API is outside the model)
     if rc.is_race(case):
         return rc.to_gallina(case, obs)
     if has_raw_rate(case):
@@ -186,6 +192,8 @@ def to_gallina(case, obs):     # noqa: F811
 
 
 def explain(case, obs):        # noqa: F811
+    if r2.is_rec2(case):
+        return "0%nat"
     if rc.is_race(case):
         return rc.explain(case, obs)
     from props import rec_common
@@ -196,6 +204,8 @@ _hist_features, _hist_nontrivial = features, nontrivial     # (from rec_common)
 
 
 def features(case):      # noqa: F811
+    if r2.is_rec2(case):
+        return r2.features(case)
     if rc.is_race(case):
         return rc.features(case)
     fs = _hist_features(case)
@@ -214,11 +224,11 @@ def features(case):      # noqa: F811
 
 
 def nontrivial(case):    # noqa: F811
-    return True if rc.is_race(case) else _hist_nontrivial(case)
+    return True if rc.is_race(case) or r2.is_rec2(case) else _hist_nontrivial(case)
 
 
 def shrink_candidates(case):     # noqa: F811
-    if rc.is_race(case):
+    if rc.is_race(case) or r2.is_rec2(case):
         return
     from props import rec_common
     for c in rec_common.shrink_candidates(case):
@@ -243,6 +253,14 @@ def generate(rng, tier):
     # operation classes registered with a sampling rate that is not a number (implementation side only)
     for i in range(24 if tier == "quick" else 200):
         cases.append(misconfigured_history(rng, RAW_RATES[i % len(RAW_RATES)], i // len(RAW_RATES)))
+    # a stored recording changed under its id between two replays on one recorder (implementation side only)
+    cases += r2.repatched_cases()
+    # history of the PROCESS: equal-but-differently-typed key arguments across the operations of one interpreter, every
+    # replay also run in a fresh interpreter (a run without any history)
+    from props.c05 import equal_arguments_history
+    eq_rng = __import__("random").Random(9)
+    for k in range(6 if tier == "quick" else 48):
+        cases.append(equal_arguments_history(eq_rng, k * 5 if tier == "quick" else k))
     return cases
 
 
@@ -258,9 +276,23 @@ def direct(case, obs):
         return [("driver", obs["driver_exception"] + obs.get("trace", "")[-400:])]
     if rc.is_race(case):
         return rc.direct_idle(case, obs)
+    if r2.is_rec2(case):
+        return r2.direct_repatched(case, obs)
     if f07c_affected(obs):
         return []          # region of known finding F07c (reported by C01): nothing is concluded from such a case
     fails = []
+    for i, ob in enumerate(obs["runs"]):
+        fr = ob.get("fresh")
+        if fr is not None and "skipped" not in fr:
+            if "error" in fr:
+                fails.append(("replay-in-another-interpreter-failed", "run %d: %s" % (i, fr["error"])))
+            else:
+                for field in ("outcome", "pbouts", "recouts"):
+                    if fr.get(field) != ob.get(field):
+                        fails.append(("history-dependent", "run %d: the replay inside the process that recorded the history differs "
+                                      "from the same replay of the same stored recording in a fresh interpreter in '%s': %s vs %s" %
+                                      (i, field, str(ob.get(field))[:160], str(fr.get(field))[:160])))
+                        break
     for i, ob in enumerate(obs["runs"]):
         st = ob["state"]
         if st["active"] or st["force"] or st["counter"] or st["icpt"] or \
